@@ -82,6 +82,30 @@
             (tuple ;(array/new-filled (math/rng-int rng 6) -1) (get [111 101 110 99 98] (math/rng-int rng 5)))]
   (planned-connect plan))
 
+# --- one duplex stream for several of the child's standard descriptors (inetd style): the accepted connection is the child's
+# stdin AND stdout / stderr; the request is already in the socket when the child starts, the peer reads until end of stream
+(defn protect-read [s] (def r (protect (ev/with-deadline 20 (ev/read s :all)))) (if (r 0) (r 1) (string "READ-FAILED:" (r 1))))
+(defn inetd [tag ks cmd]
+  (def path (string dir "/isock-" tag))
+  (def srv (net/listen :unix path))
+  (def cli (net/connect :unix path))
+  (def conn (net/accept srv))
+  (when (index-of :in ks) (ev/write cli (string "ping-" tag "\n")))   # (unread data at close would reset the connection)
+  (def env @{})
+  (each k ks (put env k conn))
+  (def r (protect (os/execute ["/bin/sh" "-c" cmd] :p env)))
+  (ev/close conn)
+  (def got (string (or (protect-read cli) "")))
+  (print "inetd " tag " keys=" (string/join (map string ks) ",") " result=" (if (r 0) (string (r 1)) (string "raised:" (string/replace-all " " "_" (string (r 1)))))
+         " peer=" (string/replace-all "\n" "|" got))
+  (ev/close cli)
+  (ev/close srv))
+
+(inetd "A" [:in :out] "read x; echo \"o:$x\"; exit 5")
+(inetd "B" [:in :err] "read x; echo \"e:$x\" >&2; exit 9")
+(inetd "C" [:in :out :err] "read x; echo \"o:$x\"; echo \"e:$x\" >&2; exit 0")
+(inetd "D" [:out :err] "echo o:D; echo e:D >&2; exit 3")
+
 (each kind ["tcp" "unix"]
   (each k [1 2 (+ 3 (math/rng-int rng 6)) (+ 10 (math/rng-int rng 40))]
     (burst-loop kind k)
